@@ -14,3 +14,8 @@ CHECKS["C02"] = dict(
  text="PartTable.tla writes the table input space down as boundary-class tuples; TLC enumerates every tuple within 2 (quick) / 3+ (thorough) deviations of the base tuple; each is concretised into a real gpt/mbr table, written with Disk.Partition onto a sparse in-memory disk (up to 3 TiB, 512/4096-byte sectors, over blank/GPT/MBR), read back from the bytes alone, parsed by an independent parser (own CRC32/GUID decoding), and the recorded events are judged by TLC against P_C02 (round trip, GetPartition ranges, on-disk validity).",
  note="Trusted: TLC, rawpt parser, memdev. Numbers >= 2^31 travel as decimal strings (TLC ints are 32-bit) and are only compared. Refusals are never violations (the statement speaks of tables Write accepts); panics are.",
  technique="TLA+ input-class spec + TLC tuple enumeration + trace validation of recorded write/read-back events")
+CHECKS["C13"] = dict(
+ level="model_checking",
+ text="PartIO.tla states the postconditions of WritePartitionContents / ReadPartitionContents / CopyPartitionRaw over geometry classes (start*sector across 2^32 bytes, start = 2^32-1 sectors, sizes not a multiple of the physical sector, logical != physical sector size, reader length size-1/size/size+1, odd chunking). TLC enumerates the tuples (quick: within 3 deviations of the base; thorough: full product of 4608), each is executed on a sparse guard-patterned in-memory disk through the real Disk API, and PartIO_Trace judges every recorded event.",
+ note="Trusted: TLC, memdev write log and guard pattern. Multi-GiB partition sizes are not streamed (start offsets beyond 4 GiB / 2 TiB are); byte counts travel as strings.",
+ technique="TLA+ postcondition spec over geometry classes + TLC tuple enumeration + trace validation of recorded I/O events")
